@@ -1,4 +1,9 @@
-"""C13 monitor: post-condition on every RegionBoundary that is constructed."""
+"""C13 monitor: post-condition on every RegionBoundary that is constructed.
+
+Clauses: unit normals, dV = |dA|, unit tangents orthogonal to the normal and (3d) spanning the face, outward normals, cells_faces on
+the first face of the boundary cell, area vector of every face from its corner points (linear types) and from the rim of
+cells_faces (all types, also on masked regions), closure, flux = dim * volume of the corresponding volume region (and of the
+generator's closed-form volume where the workload declares it), per-cell closure."""
 import numpy as np
 
 from .. import attach
@@ -9,8 +14,69 @@ VOLUME_REGION = {"quad": "RegionQuad", "quad8": "RegionQuadraticQuad", "quad9": 
                  "hexahedron27": "RegionTriQuadraticHexahedron"}
 NV = {"quad": 4, "quad8": 4, "quad9": 4, "hexahedron": 8, "hexahedron20": 8, "hexahedron27": 8}
 
+# meshes the workload declares as generated (valid by construction), with the volume of the body where the generator knows it in
+# closed form: the hook then judges the flux against that number as well (the library's volume region and its boundary region
+# could agree on the same wrong geometry) and does not accept "non-positive volumes" as a reason to judge nothing
+KNOWN = []
 
-def check_boundary_region(run, rb, parent_mesh, label=None, precondition_valid=True):
+
+def declare(mesh, volume=None):
+    """Tell the hook that ``mesh`` is a generated mesh (the object is kept, ids of dead objects are reused by Python)."""
+    KNOWN.append((mesh, volume))
+    return mesh
+
+
+def declared(mesh):
+    for m, volume in KNOWN:
+        if m is mesh:
+            return True, volume
+    return False, None
+
+
+_VOLUMES = []
+
+
+def measured_volume(fem, ct, parent_mesh):
+    """(all dV > 0, sum dV, min dV) of the corresponding volume region. Most regions of a workload sit on the same body: the volume
+    region is built once per (mesh object, points, cells) - both arrays are compared by value, a mesh that was changed in place is
+    measured anew."""
+    P, C = np.asarray(parent_mesh.points), np.asarray(parent_mesh.cells)
+    for m, t, P0, C0, res in _VOLUMES:
+        if m is parent_mesh and t == ct and P0.shape == P.shape and C0.shape == C.shape and np.array_equal(P0, P) and np.array_equal(C0, C):
+            return res
+    V = getattr(fem, VOLUME_REGION[ct])(parent_mesh)
+    res = (bool(np.all(V.dV > 0)), float(V.dV.sum()), float(V.dV.min()))
+    _VOLUMES.append((parent_mesh, ct, P.copy(), C.copy(), res))
+    del _VOLUMES[:-6]
+    return res
+
+
+def rim_area_vectors(P, dim):
+    """Area vector of every face from its rim alone, P = coordinates of the face's nodes (faces, nodes per face, dim).
+
+    2D: the integral of the rotated tangent along an edge is the rotated chord between its two end points, whatever the
+    curvature (nodes: end, end[, mid]).  3D: Stokes, A = 1/2 * closed integral of x cross dx along the four edges (nodes: ring of
+    four corners[, the mid node k between corners k and k+1][, centre]); an edge through (a, mid, b) is the quadratic Lagrange
+    curve, x cross dx is a cubic along it and the two-point Gauss rule integrates it exactly.  Taken relative to the first
+    corner (a far-away body only costs digits).  Independent of the region's element, rule and geometric gradient.
+    """
+    P = np.asarray(P, float)
+    if dim == 2:
+        e = P[:, 1] - P[:, 0]
+        return np.stack([e[:, 1], -e[:, 0]], 1)
+    P = P - P[:, :1]
+    ref = np.zeros((len(P), 3))
+    for k in range(4):
+        a, b = P[:, k], P[:, (k + 1) % 4]
+        mid = P[:, 4 + k] if P.shape[1] > 4 else 0.5 * (a + b)
+        for r in (-1 / np.sqrt(3.0), 1 / np.sqrt(3.0)):
+            x = 0.5 * r * (r - 1) * a + (1 - r * r) * mid + 0.5 * r * (r + 1) * b
+            dx = (r - 0.5) * a - 2 * r * mid + (r + 0.5) * b
+            ref += 0.5 * np.cross(x, dx)
+    return ref
+
+
+def check_boundary_region(run, rb, parent_mesh, label=None, precondition_valid=True, volume=None, generated=False):
     import felupe as fem
     ct = rb.mesh.cell_type
     if ct not in NV or not getattr(rb, "evaluate_gradient", True) or not hasattr(rb, "dA"):
@@ -36,11 +102,14 @@ def check_boundary_region(run, rb, parent_mesh, label=None, precondition_valid=T
     key = "celltype=%s only_surface=%s " % (tag if label else ct, bool(rb.only_surface))
 
     # preconditions: the parent mesh must be valid (positive volumes) for the clauses to apply
-    V = getattr(fem, VOLUME_REGION[ct])(parent_mesh)
-    if precondition_valid and not np.all(V.dV > 0):
-        run.skip(mon, "parent mesh has non-positive volumes")
-        return
-    vol = float(V.dV.sum())
+    positive, vol, vmin = measured_volume(fem, ct, parent_mesh)
+    if precondition_valid and not positive:
+        if not generated:
+            run.skip(mon, "parent mesh has non-positive volumes")
+            return
+        # a generated mesh is valid by construction: nothing excuses the clauses here (they are judged below all the same)
+        run.fail(mon, key + "clause=volume-of-a-valid-mesh", "%s: the corresponding volume region measures non-positive volumes on a mesh "
+                 "that is valid by construction" % tag, {"min dV": vmin})
 
     # 1 unit normals / tangents / orthogonality / dV = |dA|
     run.compare(mon, key + "clause=unit-normal", maxabs(np.linalg.norm(n, axis=0) - 1), 1e-12,
@@ -62,6 +131,17 @@ def check_boundary_region(run, rb, parent_mesh, label=None, precondition_valid=T
             continue
         run.compare(mon, key + "clause=tangent-orthogonal", maxabs((t * n).sum(0)), 1e-12,
                     "%s: tangent %d not orthogonal to the normal" % (tag, k), unit=unit + ":tangents")
+    if ntan == 2 and all(np.asarray(t).shape == n.shape and n.shape[0] == 3 for t in rb.tangents):
+        # the two tangents of a face span its tangent plane: each one alone being a unit vector orthogonal to the normal also holds
+        # for t2 = +-t1 (the in-plane strain example of the documentation then inverts a singular basis). Valid cells keep the
+        # triple product far from zero (the generated classes: >= 0.5)
+        t1, t2 = (np.asarray(t) for t in rb.tangents)
+        span = np.abs((np.cross(t1, t2, axis=0) * n).sum(0))
+        if span.min() > 1e-3:
+            run.ok(mon, unit=unit + ":tangent-span", config=(tag, "tangent-span"))
+        else:
+            run.fail(mon, key + "clause=tangent-span", "%s: the two tangents do not span the face (|t1 x t2 . n| = %.2e)" % (tag, span.min()),
+                     {"min": float(span.min())}, unit=unit + ":tangent-span")
     if rb.ensure_3d and dim == 2:
         ok = dA.shape[0] == 3 and n.shape[0] == 3 and maxabs(dA[2]) == 0 and maxabs(n[2]) == 0
         if ok:
@@ -105,6 +185,18 @@ def check_boundary_region(run, rb, parent_mesh, label=None, precondition_valid=T
         run.compare(mon, key + "clause=face-area-vector", maxabs(got - sgn[:, None] * ref) / max(maxabs(ref), 1e-300), 1e-12,
                     "%s: the area vector of a face is not the one spanned by its corner points" % tag, unit=unit + ":face-area-vector")
 
+    # the same for every cell type and every selection of faces (masked regions of the quadratic families have no other clause on
+    # the size of dA): the area vector of a face follows from its rim alone. This also fixes the node order of cells_faces (ring of
+    # corners, mid nodes between them, centre last - what mesh_faces() and Mesh(points, cells_faces, "line" / "quad") rely on); the
+    # sense of rotation is left open, the sign is the business of the outwardness clause.
+    if cf.ndim == 2 and cf.shape[1] in ((2, 3) if dim == 2 else (4, 8, 9)):
+        ref = rim_area_vectors(pts[cf], dim)
+        got = dA_d.sum(1).T
+        sgn = np.sign((got * ref).sum(1))
+        run.compare(mon, key + "clause=face-area-vector-from-rim", maxabs(got - sgn[:, None] * ref) / max(maxabs(ref), 1e-300), 1e-12,
+                    "%s: the area vector of a face is not the one enclosed by its rim (cells_faces)" % tag, unit=unit + ":face-rim",
+                    config=(tag, "face-rim"))
+
     closed = rb.mask is None
     if closed and rb.only_surface:
         run.compare(mon, key + "clause=closure", maxabs(dA_d.sum((1, 2))) / scale, 1e-12,
@@ -116,6 +208,12 @@ def check_boundary_region(run, rb, parent_mesh, label=None, precondition_valid=T
                     "%s: flux of the position vector != dim * volume" % tag, unit=unit + ":flux",
                     config=(tag, "flux"), sample={"cell_type": ct, "faces": len(cells), "flux": flux, "dim*V": dim * vol,
                                                   "only_surface": bool(rb.only_surface), "label": tag})
+        if volume is not None:
+            # the volume of the body as the generator knows it (box, affine image, domain-preserving distortion): surface and
+            # volume region computed from the same wrong geometry would agree with each other, not with this number
+            run.compare(mon, key + "clause=flux-analytic-volume", abs(flux - dim * volume) / (dim * abs(volume)), 1e-11,
+                        "%s: flux of the position vector != dim * (volume of the generated body)" % tag,
+                        unit=unit + ":flux-analytic", config=(tag, "flux-analytic"))
     if closed and not rb.only_surface:
         # per-cell closure: group faces by parent cell (same point set)
         parent = {frozenset(c.tolist()): k for k, c in enumerate(parent_mesh.cells)}
@@ -144,6 +242,7 @@ def attach_hook(run):
         mesh = arguments.get("mesh")
         if mesh is None:
             return
-        check_boundary_region(run, obj, mesh)
+        generated, volume = declared(mesh)
+        check_boundary_region(run, obj, mesh, volume=volume, generated=generated)
 
     attach.wrap_init(RegionBoundary, post)
